@@ -27,6 +27,9 @@ CLAIMED = {
  "C08": ("property-based testing: generator ground truth (boots) vs detected lifecycles on clean traces",
          "Generated-input exploration of cleanly separated power cycles (1..4 ECUs x 1..6 boots, any order within a boot, delays 0..120 s); exact equality of partition, start, end and counts with the generator's ground truth.",
          "domain: next boot starts >= 1 ms after the last reception of the previous boot (DESIGN 4/C08 domain note)", "4/C08"),
+ "C04": ("property-based testing: model-based op sequences on the buffering reader over scripted short-read schedules; differential parse (chunked reader vs whole buffer); suffix metamorphic relation",
+         "Generated-input and generated-schedule exploration: the harness owns the read-size schedule of the source, so refills, compactions and boundary fills (low mark -3..+7) are produced deliberately; reader vs (data,position) model after every op, iterator results over the reader vs over a Cursor incl. 65 KB messages and injected markers.",
+         "low mark for the iterator differential is DLT_MAX_STORAGE_MSG_SIZE as both callers use; open finding F04 excluded by input class (counted) and reported as KNOWN-FINDING", "4/C04"),
 }
 PENDING = {}
 def main():
